@@ -9,12 +9,13 @@ LEVEL = 'fault_enumeration'
 LEVEL_TEXT = ('Contract.tla tabulates the public interface (constructors, members, validating functions) with argument sorts, validity of '
               'each special value class and output dependencies, written from the headers; TLC enumerates every entry x argument position x '
               'value class (NaN, +-inf, +-0, denormal, tiny, huge, max, +-90, +-180, +-90+ulp, negative), every byte string up to the depth bound '
-              'over an abstract alphabet for 16 parsers, and truncation/byte faults at every offset of nearest-neighbour saves; each is executed '
+              'over an abstract alphabet for 16 parsers, truncation/byte/field faults at every offset of nearest-neighbour saves and of magnetic / gravity model '
+              'files (metadata and coefficients); each is executed '
               'on an ASan+UBSan build and TLC validates outcome class, exception type, NaN propagation, untouched outputs; a crash, sanitizer '
               'report or time-out is attributed to the vector being executed.')
 DESIGN_REF = 'DESIGN.md section 4, C13'
 LEVEL_NOTE = ('Trusted: TLC, Contract.tla, sanitizers for memory safety/UB on the executions enumerated (absence of UB is observed, not proved). '
-              'Geoid file faults are enumerated in C20, model-file faults in C19; entries not in the table are not covered.')
+              'Geoid file faults are enumerated in C20; faults are single faults of small synthetic files; entries not in the table are not covered.')
 TECHNIQUE = 'TLA+ contract table + TLC fault enumeration, execution under ASan/UBSan, TLC trace validation'
 
 
@@ -97,9 +98,13 @@ def run(ctx):
     return ctx.finish(RULE, TRUSTED)
 
 
-RULE = ('fault enumeration by TLC from Contract.tla: every table entry x argument position x 17 special value classes; every byte string of '
-        'length <= StrDepth over a 28-symbol abstract alphabet for each of 16 parsers; truncation and 5 byte-fault kinds at every offset 0..400 of '
-        'text and binary nearest-neighbour saves; plus seeded mutations of valid strings. distinct_nontrivial = distinct vectors executed.')
+RULE = ('fault enumeration by TLC from Contract.tla: every table entry (120: constructors, members, validating functions, line / circle / '
+        'polygon / model objects) x argument position x 17 special value classes; every byte string of length <= StrDepth over a 28-symbol '
+        'abstract alphabet for each of 16 parsers; for text and binary nearest-neighbour saves truncation, 5 byte-fault kinds and 7 field-value '
+        'faults at every offset / field 0..400; for MagneticModel and GravityModel metadata files truncation and 3 byte faults at every offset, '
+        'dropped / duplicated keyword lines and 11 value classes for every keyword, for their coefficient files truncation and 4 byte faults at '
+        'every offset and 8 header-word classes at every word; the unfaulted files as controls; plus seeded mutations of valid strings. '
+        'distinct_nontrivial = distinct vectors executed.')
 TRUSTED = ['TLC', 'Contract.tla', 'AddressSanitizer + UndefinedBehaviorSanitizer']
 
 
